@@ -146,6 +146,33 @@ def _patch(p):
     p.builtins("pyxel.detectors.environment", "isinstance", "float", "int")
 
 
+SWEEP_ROUTES = ("sweep", "replace", "create_new_processor")
+
+
+def _sweep(route, key, v):
+    """The ways an observation applies a swept value: Processor.set, Processor.replace (parallel path), create_new_processor
+    (sequential path).  Returns (accepted, value the resulting processor holds)."""
+    from pyxel.observation.misc import create_new_processor
+    from pyxel.pipelines import DetectionPipeline, Processor
+
+    proc = Processor(detector=make_ccd(2, 2), pipeline=DetectionPipeline())
+    try:
+        if route == "sweep":
+            proc.set(key, v)
+            new = proc
+        elif route == "replace":
+            new = proc.replace({key: v})
+        else:
+            new = create_new_processor(processor=proc, parameter_dict={key: v})
+    except ValueError:
+        return False, None
+    obj = new
+    parts = key.split(".")
+    for a in parts[:-1]:
+        obj = getattr(obj, a)
+    return True, getattr(obj, "_" + parts[-1])
+
+
 def field(i, fp):
     cls, fld, kind, lo, los, hi, his = DOC[i]
     if fp:
@@ -179,14 +206,12 @@ def field(i, fp):
         if cls in SWEEP_KEY and not fp:
             from pyxel.pipelines import DetectionPipeline, Processor
 
-            det = make_ccd(2, 2)
-            proc = Processor(detector=det, pipeline=DetectionPipeline())
-            try:
-                proc.set(SWEEP_KEY[cls] + fld, v)
-                ok_w = True
-            except ValueError:
-                ok_w = False
-            vx.prove(f"C12/sweep/same_limits/{cls}.{fld}", doc == ok_w, route="sweep")
+            for route in SWEEP_ROUTES:
+                ok_w, held = _sweep(route, SWEEP_KEY[cls] + fld, v)
+                vx.prove(f"C12/sweep/same_limits/{cls}.{fld}" + ("" if route == "sweep" else f"/{route}"), doc == ok_w, route=route)
+                if ok_w:
+                    # an accepted sweep value is the value the run uses
+                    vx.prove(f"C12/sweep/applies_value/{cls}.{fld}/{route}", True if held is v else held == v, route=route + ":applied")
     vx.observe("ctor", ok_c)
     vx.observe("setter", ok_s)
 
@@ -409,16 +434,18 @@ def replay(oid, kwargs, model, data):
         if cls in SWEEP_KEY:
             from pyxel.pipelines import DetectionPipeline, Processor
 
-            proc = Processor(detector=make_ccd(2, 2), pipeline=DetectionPipeline())
-            try:
-                proc.set(SWEEP_KEY[cls] + fld, v)
-                res["sweep"] = True
-            except ValueError:
-                res["sweep"] = False
+            for r_ in SWEEP_ROUTES:
+                ok_w, held = _sweep(r_, SWEEP_KEY[cls] + fld, v)
+                res[r_] = ok_w
+                if ok_w:
+                    res[r_ + ":applied"] = (held == v) == doc or bool(held == v)
+                    res[r_ + ":holds"] = held
         det = {"value": v, "documented_accepts": doc, **res}
+        if route is not None and route.endswith(":applied"):
+            return res.get(route) is False or res.get(route.split(":")[0] + ":holds") != v, det
         if route in res:
             return res[route] != doc, det
-        return any(r != doc for r in res.values()), det
+        return any(r != doc for k_, r in res.items() if ":" not in k_), det
     if fn == "voltage_range":
         from pyxel.detectors import Characteristics
 
